@@ -77,7 +77,8 @@ THandle == /\ Live /\ Ln.e = "handle" /\ Ln.a \in Actors(P)
            /\ \/ st.ph[Ln.a] = "issued"
               \/ MoreSub(P, st, Ln.a) /\ Ln.a \notin pend       \* next simcall of the same operation (put = isend + wait)
            /\ LET base == IF st.ph[Ln.a] = "issued" THEN st ELSE NextSub(P, st, Ln.a) IN
-              /\ CallOk(Cur(P, base, Ln.a).op, base.sub[Ln.a], Ln.call)
+              /\ (P.gran = "mc" \/ CallOk(Cur(P, base, Ln.a).op, base.sub[Ln.a], Ln.call))
+              /\ (P.gran = "mc" => EnabledMC(P, base, Ln.a))        \* C43: the checker only fires enabled transitions
               /\ st' = Handle(P, base, Ln.a)
               /\ pend' = pend \cup NewlyAnswered(base, st')
            /\ fin' = st'.undef          \* undefined behaviour reached: the rest of this execution is not examined
@@ -144,7 +145,13 @@ TEnd == /\ More /\ ~fin /\ Ln.e = "end"
                  \/ \E a \in Actors(P) : st.ph[a] = "issued" /\ Handle(P, st, a).aborted
         /\ fin' = TRUE /\ Consume /\ UNCHANGED <<pid, st, pend>>
 
-Next == TReset \/ TSkip \/ TIssueDying \/ TKilled \/ TOnExit \/ TIssue \/ THandle \/ TAnswer \/ TSilentFire \/ TSilentComplete \/ TSilentDaemonKill \/ TRet \/ TAdv \/ TEnd
+\* end of an execution explored by simgrid-mc (the application is simply abandoned by the checker): the outcome reached,
+\* as the specification sees it, is printed for the harness (C38: set of outcomes covered by the exploration)
+TXEnd == /\ More /\ ~fin /\ Ln.e = "xend" /\ pend = {}
+         /\ PrintT(<<"TOUT", Ln.run, SomeReady(P, st), ToJson(Outcome(P, st))>>)
+         /\ fin' = TRUE /\ Consume /\ UNCHANGED <<pid, st, pend>>
+
+Next == TXEnd \/ TReset \/ TSkip \/ TIssueDying \/ TKilled \/ TOnExit \/ TIssue \/ THandle \/ TAnswer \/ TSilentFire \/ TSilentComplete \/ TSilentDaemonKill \/ TRet \/ TAdv \/ TEnd
 Spec == Init /\ [][Next]_vars
 
 I_MutexOwnership == fin \/ MutexOwnership(P, st)
